@@ -724,7 +724,8 @@ class Model:
         """
         if (cache := self._cache) is None:
             cache = self._create_cache()
-        return cache.base_parameter_values
+        # A copy, such that the caller cannot change the cached values by accident
+        return dict(cache.base_parameter_values)
 
     def get_parameter_names(self) -> list[str]:
         """Retrieve the names of the parameters.
@@ -1089,7 +1090,8 @@ class Model:
         """
         if (cache := self._cache) is None:
             cache = self._create_cache()
-        return cache.initial_conditions
+        # A copy, such that the caller cannot change the cached values by accident
+        return dict(cache.initial_conditions)
 
     def get_variable_names(self) -> list[str]:
         """Retrieve the names of all variables.
